@@ -308,7 +308,10 @@ impl Stats {
 
 pub const MAX_VIOLATIONS_KEPT: usize = 8;
 /// a unit stops exploring after this many violations (reported as not exhaustive)
-pub const MAX_VIOLATIONS_PER_UNIT: u64 = 64;
+pub fn max_violations_per_unit() -> u64 {
+    static V: std::sync::OnceLock<u64> = std::sync::OnceLock::new();
+    *V.get_or_init(|| std::env::var("VERIF_MAX_VIOLATIONS").ok().and_then(|s| s.parse().ok()).unwrap_or(64))
+}
 
 pub const FULL_COMPARE_EVERY: u64 = 4096;
 
@@ -336,6 +339,8 @@ pub struct Ctx {
     wlog: Vec<u32>,
     /// C20: only the charge is this property's business; semantic differences belong to C01-C08
     pub cycles_only: bool,
+    /// C15: the only question is whether the emulator unwinds
+    pub panic_only: bool,
 }
 
 /// Built-in self-test of the comparison: perturb the reference for selected cases and require a mismatch.
@@ -373,6 +378,7 @@ impl Ctx {
             canary_fired: 0,
             wlog: Vec::with_capacity(64),
             cycles_only: false,
+            panic_only: false,
         }
     }
 
@@ -481,6 +487,12 @@ impl Ctx {
     }
 
     fn compare(&self, c: &Case, ro: &RefOut, act: &Actual) -> Option<Diff> {
+        if self.panic_only {
+            return match act {
+                Actual::Panic(p) => Some(Diff { what: format!("emulator panicked: {}", p) }),
+                _ => None,
+            };
+        }
         if self.cycles_only {
             if let (Class::Ok, Actual::Ok(states)) = (ro.class, act) {
                 if let Some(exp) = self.expected_cycles(ro) {
@@ -612,6 +624,9 @@ impl Ctx {
                 let d = Defects::from_keys(&[k.as_str()]);
                 let ok = if d.fetch_unwrap {
                     panic_explained_fetch(&ro, &act)
+                        || (self.panic_only
+                            && matches!(&act, Actual::Panic(p) if is_fetch_unwrap_panic(p))
+                            && ((0..10u32).any(|k| !sem::mapped((c.pc & !1).wrapping_add(k))) || c.pc > sem::M24))
                 } else {
                     let (_, ro2) = self.reference(c, &d);
                     let ok = self.compare(c, &ro2, &act).is_none();
@@ -669,7 +684,12 @@ impl Ctx {
                     }
                 }
                 Actual::Err(_) => st.act_err += 1,
-                Actual::Panic(_) => st.act_panic += 1,
+                Actual::Panic(p) => {
+                    st.act_panic += 1;
+                    let site = p.rsplit(" @ ").next().unwrap_or("?").to_string();
+                    let kind: String = p.chars().take(48).collect();
+                    *st.notes.entry(format!("panic site {} ({})", site, kind)).or_insert(0) += 1;
+                }
             }
             // outcome hash (lower bound on the number of distinct observed outcomes)
             let cpu = &self.m.cpu;
@@ -715,7 +735,7 @@ impl Ctx {
                     };
                     self.st.violations.push(v);
                 }
-                if self.st.violations_total >= MAX_VIOLATIONS_PER_UNIT {
+                if self.st.violations_total >= max_violations_per_unit() {
                     self.stop = true;
                 }
             }
@@ -749,7 +769,7 @@ impl Ctx {
             if got.is_none() || got == exp {
                 continue; // rejected by the bus, or rewritten with the value it already had
             }
-            if !open && !self.frozen && !canary_on && !self.cycles_only {
+            if !open && !self.frozen && !canary_on && !self.cycles_only && !self.panic_only {
                 self.st.violations_total += 1;
                 if self.st.violations.len() < MAX_VIOLATIONS_KEPT {
                     self.st.violations.push(Violation {
@@ -761,7 +781,7 @@ impl Ctx {
                         actual: self.actual_json(&ro, &act),
                     });
                 }
-                if self.st.violations_total >= MAX_VIOLATIONS_PER_UNIT {
+                if self.st.violations_total >= max_violations_per_unit() {
                     self.stop = true;
                 }
             }
@@ -789,7 +809,7 @@ impl Ctx {
                             actual: self.actual_json(&ro, &act),
                         });
                     }
-                    if self.st.violations_total >= MAX_VIOLATIONS_PER_UNIT {
+                    if self.st.violations_total >= max_violations_per_unit() {
                         self.stop = true;
                     }
                 }
@@ -804,6 +824,13 @@ impl Ctx {
     /// Full comparison in normal mode; a difference triggers the locating re-run of the chunk.
     pub fn checkpoint(&mut self) {
         self.since_full = 0;
+        if self.panic_only {
+            // memory effects are not this property's business: quietly return to the reference image
+            if self.m.stray.is_some() || self.m.full_compare().is_some() {
+                self.m.resync_from_shadow();
+            }
+            return;
+        }
         if !self.frozen {
             self.st.full_compares += 1;
         }
@@ -818,9 +845,14 @@ impl Ctx {
 /// outside the address map (so an error is due) and the emulator panicked in `Result::unwrap` in cpu.rs.
 pub fn panic_explained_fetch(ro: &RefOut, act: &Actual) -> bool {
     match act {
-        Actual::Panic(p) => ro.class == Class::Err && ro.note == "fetch outside the address map" && p.contains("unwrap") && p.contains("cpu.rs"),
+        Actual::Panic(p) => ro.class == Class::Err && ro.note == "fetch outside the address map" && is_fetch_unwrap_panic(p),
         _ => false,
     }
+}
+
+/// panic text + location of the `fetch()` unwrap (line numbers are not part of the signature)
+pub fn is_fetch_unwrap_panic(p: &str) -> bool {
+    p.contains("unwrap") && p.contains("Invalid address") && p.contains("cpu.rs")
 }
 
 pub fn cyc_text(ro: &RefOut) -> String {
@@ -879,7 +911,7 @@ impl Ctx {
             };
             self.st.violations.push(Violation { engine: "e1".into(), unit: self.unit.clone(), what, case, expected, actual });
         }
-        if self.st.violations_total >= MAX_VIOLATIONS_PER_UNIT {
+        if self.st.violations_total >= max_violations_per_unit() {
             self.stop = true;
         }
     }
@@ -1019,7 +1051,7 @@ impl Ctx {
                 if got.is_none() || got == exp {
                     continue;
                 }
-                if !open && stray.is_none() {
+                if !open && stray.is_none() && !self.panic_only && !self.cycles_only {
                     stray = Some((a, got.unwrap_or(0), exp.unwrap_or(0)));
                 }
                 let v = exp.unwrap_or(0);
@@ -1085,7 +1117,7 @@ impl Ctx {
         if self.st.violations.len() < MAX_VIOLATIONS_KEPT {
             self.st.violations.push(Violation { engine: engine.to_string(), unit: self.unit.clone(), what, case, expected, actual });
         }
-        if self.st.violations_total >= MAX_VIOLATIONS_PER_UNIT {
+        if self.st.violations_total >= max_violations_per_unit() {
             self.stop = true;
         }
     }
